@@ -635,6 +635,33 @@ pub proof fn lemma_c18_step(s: Raw, t: Raw, sender: Addr, funds: Seq<Coin>, msg:
     }
 }
 
+/// one step of any history of the contract: an execute message, or any other entry point (IBC callbacks, reply, migrate), all of
+/// which are proved to leave the allow list alone (their contracts: `same allow list` clauses of ibc_* / reply / migrate)
+pub open spec fn hist_step_c18(s: Raw, t: Raw) -> bool {
+    (exists|sender: Addr, funds: Seq<Coin>, msg: ExecuteMsg| #![auto] step_msg(s, t, sender, funds, msg))
+    || (forall|a: Seq<char>| #![trigger allow_key(a)] allow_of(t, a) == allow_of(s, a))
+}
+pub open spec fn hist_step_c18_at(tr: Seq<Raw>, k: int) -> bool { hist_step_c18(tr[k], tr[k + 1]) }
+// serves: C18
+/// over every history: a token that is on the allow list stays on it, and its gas limit is only ever loosened
+pub proof fn lemma_c18_history(tr: Seq<Raw>, a: Seq<char>, i: int, j: int)
+    requires 0 <= i <= j < tr.len(), forall|k: int| 0 <= k < tr.len() - 1 ==> #[trigger] hist_step_c18_at(tr, k)
+    ensures allow_of(tr[i], a) is Some ==> allow_of(tr[j], a) is Some && limit_loosened(allow_of(tr[i], a)->Some_0.gas_limit, allow_of(tr[j], a)->Some_0.gas_limit)
+    decreases j - i
+{
+    if i < j {
+        lemma_c18_history(tr, a, i, j - 1);
+        assert(hist_step_c18_at(tr, j - 1));
+        let s = tr[j - 1]; let t = tr[j];
+        if exists|sender: Addr, funds: Seq<Coin>, msg: ExecuteMsg| #![auto] step_msg(s, t, sender, funds, msg) {
+            let (sender, funds, msg) = choose|sender: Addr, funds: Seq<Coin>, msg: ExecuteMsg| #![auto] step_msg(s, t, sender, funds, msg);
+            lemma_c18_step(s, t, sender, funds, msg, a);
+        } else {
+            assert(allow_of(t, a) == allow_of(s, a)) by { assert(allow_key(a) == allow_key(a)); }
+        }
+    }
+}
+
 
 // ===================================================================== C20: allow-list listing
 @struct contracts/cw20-ics20/src/msg.rs ListAllowedResponse
@@ -651,7 +678,7 @@ pub open spec fn str_cursor(c: Option<String>) -> Option<Seq<u8>> { match c { So
         r->Ok_0.allow@.len() == pg.len() && forall|i: int| 0 <= i < pg.len() ==> utf8((#[trigger] r->Ok_0.allow@[i]).contract@) == pg[i].0
             && AllowInfo::de(pg[i].1) == Some(AllowInfo { gas_limit: r->Ok_0.allow@[i].gas_limit })
     })
-@eta "addr.as_ref().map" 1
+@eta ".as_ref().map" 1
     __c: &Addr -> Bound<&Addr>
 @closure_types 1
     item: StdResult<(Addr, AllowInfo)>
